@@ -13,6 +13,7 @@ import (
 	"sync/atomic"
 	"time"
 
+	"github.com/anishathalye/porcupine"
 	"github.com/ohler55/slip"
 
 	"verif/internal/fw"
@@ -31,7 +32,7 @@ type Case struct {
 	Salt    int    `json:"salt"`
 }
 
-var kinds = []string{"prodcons", "mutex-let", "mutex-global", "sync-instance", "defvar-defun", "printing", "exit-lock", "generic", "mutex-hash", "exit-lock-global", "range-close", "select"}
+var kinds = []string{"prodcons", "mutex-let", "mutex-global", "sync-instance", "defvar-defun", "printing", "exit-lock", "generic", "mutex-hash", "exit-lock-global", "range-close", "select", "hash-register"}
 
 func nCases(tier string) int {
 	if tier == "thorough" {
@@ -119,7 +120,99 @@ func (f *yieldFn) Call(s *slip.Scope, args slip.List, depth int) slip.Object {
 	return nil
 }
 
+// ----- recorded call/return history for the linearizability monitor -----
+
+type regIn struct {
+	Key   int64
+	Write bool
+	Val   int64
+}
+
+type histEv struct {
+	client   int
+	in       regIn
+	out      int64
+	call     int64
+	ret      int64
+	returned bool
+}
+
+var (
+	histMu  sync.Mutex
+	hist    []histEv
+	histClk int64
+)
+
+type callFn struct{ slip.Function }
+
+// (c17-call routine write key value) => token
+func (f *callFn) Call(s *slip.Scope, args slip.List, depth int) slip.Object {
+	histMu.Lock()
+	histClk++
+	hist = append(hist, histEv{client: int(args[0].(slip.Fixnum)), call: histClk,
+		in: regIn{Write: args[1].(slip.Fixnum) == 1, Key: int64(args[2].(slip.Fixnum)), Val: int64(args[3].(slip.Fixnum))}})
+	tok := len(hist) - 1
+	histMu.Unlock()
+	perturb()
+	return slip.Fixnum(tok)
+}
+
+type retFn struct{ slip.Function }
+
+// (c17-ret token result)
+func (f *retFn) Call(s *slip.Scope, args slip.List, depth int) slip.Object {
+	perturb()
+	var out int64
+	if v, ok := args[1].(slip.Fixnum); ok {
+		out = int64(v)
+	}
+	histMu.Lock()
+	histClk++
+	ev := &hist[int(args[0].(slip.Fixnum))]
+	ev.out, ev.ret, ev.returned = out, histClk, true
+	histMu.Unlock()
+	return nil
+}
+
+var regModel = porcupine.Model{
+	Partition: func(h []porcupine.Operation) [][]porcupine.Operation {
+		m := map[int64][]porcupine.Operation{}
+		var keys []int64
+		for _, op := range h {
+			k := op.Input.(regIn).Key
+			if _, has := m[k]; !has {
+				keys = append(keys, k)
+			}
+			m[k] = append(m[k], op)
+		}
+		out := make([][]porcupine.Operation, 0, len(keys))
+		for _, k := range keys {
+			out = append(out, m[k])
+		}
+		return out
+	},
+	Init: func() any { return int64(0) },
+	Step: func(st, in, out any) (bool, any) {
+		i := in.(regIn)
+		if i.Write {
+			return true, i.Val
+		}
+		return out.(int64) == st.(int64), st
+	},
+	Equal: func(a, b any) bool { return a.(int64) == b.(int64) },
+}
+
 func initWorker() {
+	slip.Define(func(args slip.List) slip.Object {
+		f := callFn{Function: slip.Function{Name: "c17-call", Args: args}}
+		f.Self = &f
+		return &f
+	}, &slip.FuncDoc{Name: "c17-call", Args: []*slip.DocArg{{Name: "routine"}, {Name: "write"}, {Name: "key"}, {Name: "value"}}, Text: "monitor: operation invoked"}, &slip.UserPkg)
+	slip.Define(func(args slip.List) slip.Object {
+		f := retFn{Function: slip.Function{Name: "c17-ret", Args: args}}
+		f.Self = &f
+		return &f
+	}, &slip.FuncDoc{Name: "c17-ret", Args: []*slip.DocArg{{Name: "token"}, {Name: "result"}}, Text: "monitor: operation returned"}, &slip.UserPkg)
 	slip.Define(func(args slip.List) slip.Object {
 		f := enterFn{Function: slip.Function{Name: "c17-enter", Args: args}}
 		f.Self = &f
@@ -160,6 +253,21 @@ func program(c Case) (src string, warm string) {
 		}
 		fmt.Fprintf(&b, " (dotimes (i %d) (channel-pop done))\n (dotimes (i %d) (channel-push ch 'stop))\n (dotimes (i %d) (channel-pop done))\n", np, nc, nc)
 		fmt.Fprintf(&b, " (dotimes (i %d) (setq res (cons (channel-pop out) res)))\n (reverse res))", np*c.M)
+	case "hash-register":
+		// a hash table used as three registers: unique-valued puts and gets, each
+		// inside with-mutex-lock, with call/return events recorded around them
+		fmt.Fprintf(&b, "(let* ((m (make-mutex)) (done (make-channel %d)) (h (make-hash-table)))\n (dotimes (k 3) (setf (gethash k h) 0))\n", c.N+1)
+		mm := c.M
+		if 40 < mm {
+			mm = 40 // keep histories short: the checker is exponential in the worst case
+		}
+		for k := 0; k < c.N; k++ {
+			fmt.Fprintf(&b, " (run (progn (dotimes (i %d) (let ((key (mod (+ i %d) 3))) (if (= 0 (mod (+ i %d) 2))"+
+				" (let ((tk (c17-call %d 1 key (+ %d i)))) (with-mutex-lock m (setf (gethash key h) (+ %d i))) (c17-ret tk 0))"+
+				" (let ((tk (c17-call %d 0 key 0))) (c17-ret tk (with-mutex-lock m (gethash key h))))))) (channel-push done t)))\n",
+				mm, k, k/2, k, (k+1)*100000+1, (k+1)*100000+1, k)
+		}
+		fmt.Fprintf(&b, " (dotimes (i %d) (channel-pop done))\n (list (gethash 0 h) (gethash 1 h) (gethash 2 h)))", c.N)
 	case "range-close":
 		// consumers iterate with range until the channel is closed; the main
 		// routine closes it after every producer is done
@@ -312,6 +420,9 @@ func exec(x *fw.Ctx, c Case) {
 	for i := range inside {
 		atomic.StoreInt32(&inside[i], 0)
 	}
+	histMu.Lock()
+	hist, histClk = hist[:0], 0
+	histMu.Unlock()
 	src, warm := program(c)
 	scope := slip.NewScope()
 	sig := func(f string) string { return fmt.Sprintf("kind=%s fail=%s", c.Kind, f) }
@@ -392,6 +503,35 @@ func exec(x *fw.Ctx, c Case) {
 		}
 		if fifoBad != "" {
 			x.Fail(sig("fifo"), "%s: %s", cfg, fifoBad)
+		}
+	case "hash-register":
+		histMu.Lock()
+		ops := make([]porcupine.Operation, 0, len(hist))
+		open := 0
+		for _, ev := range hist {
+			if !ev.returned {
+				open++
+				continue
+			}
+			ops = append(ops, porcupine.Operation{ClientId: ev.client, Input: ev.in, Call: ev.call, Output: ev.out, Return: ev.ret})
+		}
+		histMu.Unlock()
+		x.CoverN("history-operations", len(ops))
+		if 0 < open {
+			x.Fail(sig("operation-never-returned"), "%s: %d recorded operations have no return event", cfg, open)
+			return
+		}
+		switch r, _ := porcupine.CheckOperationsVerbose(regModel, ops, 20*time.Second); r {
+		case porcupine.Ok:
+			x.Cover("porcupine:linearizable")
+		case porcupine.Illegal:
+			x.Fail(sig("not-linearizable"), "%s: the recorded history of %d put/get operations on the mutex-guarded hash table is not linearizable as per-key registers", cfg, len(ops))
+		default:
+			x.Cover("porcupine:unknown(timeout)") // inconclusive, never a violation
+		}
+		// final values must be values that were written
+		if v, ok := ints(res); !ok || len(v) != 3 {
+			x.Fail(sig("shape"), "%s: %s", cfg, shown)
 		}
 	case "mutex-let", "mutex-global":
 		v, ok := ints(res)
@@ -507,7 +647,7 @@ func exec(x *fw.Ctx, c Case) {
 func init() {
 	fw.Register(fw.Spec[Case]{
 		ID: "C17",
-		Rule: "a case = workload kind (12 kinds: producers/consumers over channels, mutex-guarded let/global/hash counters with a read-yield-write body, synchronized instance, " +
+		Rule: "a case = workload kind (13 kinds, one of them a hash table used as per-key registers whose recorded call/return history is checked for linearizability with porcupine: producers/consumers over channels, mutex-guarded let/global/hash counters with a read-yield-write body, synchronized instance, " +
 			"concurrent defvar/defun, concurrent printing, exits out of locked regions, generic calls during defmethod) x N<=8 routines x M<=200 ops x channel capacity x GOMAXPROCS {1,2,4,16} x " +
 			"schedule perturbation {off, random yield, random 10-200us sleep at VerifPoints and monitor calls} x cold/warm, run in a race-detector build; " +
 			"every case is non-trivial (>= 2 routines); distinct = distinct case JSON",
